@@ -150,6 +150,8 @@ struct XmlKnobs
     bool comment_in_text{false};        // separately reported family (F-C04-1)
     bool project_root{false};           // <project> instead of <nta>   (not used by default)
     bool crlf{false};                   // CRLF line ends inside text blocks
+    int big_text_lines{0};              // > 0: the global declaration starts with a comment of that many lines (a text node of
+                                        // tens of KB: libxml2 refills its input buffer several times inside one text node)
 };
 XmlKnobs draw_knobs(Rng& rng);
 std::string knobs_str(const XmlKnobs&);
